@@ -225,6 +225,10 @@ def check(rep):
         else:
             rep.spurious += 1
             rep.inconc(f"{f['clause']}: model did not reproduce on the real code: {w}")
+    # "a pin cite within the opinion" is a statement about pin-cite text: the lemma behind the numeric abstraction
+    from vf.harness import pinlemma
+
+    pinlemma.fold(rep, "C05")
     # one end-to-end document (extraction + resolution) as regression
     from eyecite import get_citations, resolve_citations
 
@@ -244,6 +248,10 @@ def replay_file(path):
     import json
 
     r = json.load(open(path))["replay"]
+    if r["kind"] == "pin":
+        from vf.harness import pinlemma
+
+        return pinlemma.replay(r)
     if r["kind"] == "model":
         bad, groups = concrete_oracle(c06.build_concrete(r["witness"]), r["witness"])
         print(groups, bad)
